@@ -340,7 +340,7 @@ class StlTextHarness(Harness):
                  "double-height codes are not part of the text comparison",
                  "real 1024+128 byte files are assembled and read through stl.reader.to_model (binary layout not stubbed here)")
   outside = ("text fields longer than the bound", "CCT other than 00 in the text comparison (8859-x tables are CPython's)")
-  required_witnesses = ("colour-applied", "newline", "stopped-at-unused-space", "diacritic")
+  required_witnesses = ("colour-applied", "newline", "stopped-at-unused-space", "diacritic", "cumulative-set")
   bounds = {"quick": "text fields of <= 4 positions, each one of 13 byte classes (letter, space, 4 foreground colours, new/black "
                      "background, italics on/off, underline on/off, newline, unused space, acute+letter), teletext and open",
             "thorough": "<= 5 positions"}
@@ -419,15 +419,32 @@ def _blocks(self, ex):
   blocks = []
   want = []
   sn = 0
+  stray = False
   for k in range(3):
-    kind = ex.choice("blk%d" % k, 5)   # 0 end, 1 single, 2 two-block subtitle, 3 user data, 4 single before start (dropped)
+    # 0 end, 1 single, 2 two-block subtitle, 3 user data, 4 single before start (dropped), 5 cumulative set (CS 1,[2],3),
+    # 6 stray intermediate/last cumulative block (no defined text: only "does not fail" is asserted)
+    kind = ex.choice("blk%d" % k, 7)
     if kind == 0:
       break
     sn += 1
     early = kind == 4 or (kind == 2 and ex.boolean("blk%d_early" % k))
     h = 9 if early else 10
-    def tti(ebn, text, sn_=sn, h_=h):
-      return struct.pack("<BHBBBBBBBBBBBBB112s", 0, sn_, ebn, 0, h_, 0, sn_, 0, h_, 0, sn_ + 1, 0, 20, 2, 0, text + b"\x8f" * (112 - len(text)))
+    def tti(ebn, text, sn_=sn, h_=h, cs=0):
+      return struct.pack("<BHBBBBBBBBBBBBB112s", 0, sn_, ebn, cs, h_, 0, sn_, 0, h_, 0, sn_ + 1, 0, 20, 2, 0, text + b"\x8f" * (112 - len(text)))
+    if kind == 5:
+      three = ex.boolean("blk%d_three" % k)
+      parts = []
+      for j, cs in enumerate([1, 2, 3] if three else [1, 3]):
+        blocks.append(tti(0xFF, b"C%d%d" % (sn, j), sn_=sn, cs=cs))
+        parts.append("C%d%d" % (sn, j))
+        sn += 1
+      want.append("".join(parts))
+      ex.witness("cumulative-set")
+      continue
+    if kind == 6:
+      blocks.append(tti(0xFF, b"Z%d" % sn, cs=2 + ex.choice("blk%d_cs" % k, 2)))
+      stray = True
+      continue
     if kind in (1, 4):
       blocks.append(tti(0xFF, b"S%d" % sn))
       if not early:
@@ -451,7 +468,8 @@ def _blocks(self, ex):
     if isinstance(p_, model.P):
       got.append("".join(t.get_text() for t in p_.dfs_iterator() if isinstance(t, model.Text)))
   ex.witness("colour-applied"); ex.witness("newline"); ex.witness("stopped-at-unused-space"); ex.witness("diacritic")
-  ex.prove(got == want, "C09:subtitle-blocks", {"_got": got, "_want": want})
+  if not stray:
+    ex.prove(got == want, "C09:subtitle-blocks", {"_got": got, "_want": want})
 
 
 StlTextHarness.blocks = _blocks
